@@ -10,8 +10,19 @@ are in {1, 2, 0.5, 3}: every intermediate value is exactly representable in the 
 store, so lines are compared as strings.  In the *float* stream (lines start with `~`) scores and weights
 are arbitrary 32-bit-representable positive floats and values are compared with relative tolerance 2e-6.
 
-Mutation sanity check (scratch copies, VERIF_REPO=/var/tmp/mut_score_N; all reported VIOLATION):
-  see MUTATIONS at the end of this docstring block, filled in after the runs.
+Mutation sanity check (scratch copies, VERIF_REPO=/var/tmp/mut_score_N, quick tier; all 8 gave VIOLATION
+with a shrunk failing input, I != S):
+  1 setops: later intersections use weight 1 instead of wx (`weightedIntersection(result, x, 1, 1)`)
+      - needs >= 3 maps sharing a key and a non-1 weight after the first pair
+  2 setops: merged union re-queued with weight wx instead of 1 - needs >= 3 maps and wx != 1
+  3 setops: `_trivial` never scales - needs a single (or single non-None) operand with weight != 1
+  4 nbest: bisect_right instead of bisect_left - needs a tie (later item reported first)
+  5 nbest: pop_smallest pops the largest
+  6 nbest: eviction deletes the best instead of the smallest - needs an add at full capacity
+  7 setops: first pair's weights swapped - needs wx != wy on the two smallest maps
+  8 setops: intersection loop starts at L[3:] - needs >= 3 maps where the third removes a key
+  (`score <= scores[0]` -> `score < scores[0]` in addmany is an equivalent mutation: the equal-score item is
+  inserted at index 0 and immediately evicted.)
 """
 import itertools
 import struct
